@@ -573,4 +573,7 @@ func (ms *Modules) ClearEntryCache() {
 	ms.entryCacheMu.Lock()
 	defer ms.entryCacheMu.Unlock()
 	ms.entryCache = map[Node]*Entry{}
+	// The marks say which submodules have been merged into the trees of the
+	// cache; trees built from now on have to merge theirs again.
+	ms.mergedSubmodule = map[string]bool{}
 }
